@@ -338,7 +338,8 @@ func (c *boolExprSimplifyChecker) int64val(x ast.Expr) (int64, bool) {
 	if !ok {
 		return 0, false
 	}
-	v, err := strconv.ParseInt(lit.Value, 10, 64)
+	// Base 0: the literal is read by Go's own syntax (010 is eight, 0x10 sixteen).
+	v, err := strconv.ParseInt(lit.Value, 0, 64)
 	if err != nil {
 		return 0, false
 	}
